@@ -40,6 +40,9 @@ type TCPFault struct {
 	After    int    `json:"after_steps,omitempty"` // steps after the first client connected
 	AtMs     int    `json:"at_ms,omitempty"`
 	AsBackup bool   `json:"as_backup,omitempty"`
+	// Extra (host-remove): the removal call lists a second entry after the member: "dup" the same endpoint again,
+	// "unknown" an endpoint that was never a member
+	Extra string `json:"extra,omitempty"`
 	// ForMs (receiver-pause): for how long the client of connection Node does not read what the proxy sends it
 	ForMs int `json:"for_ms,omitempty"`
 	// OtherType (host-add): the endpoint is announced with the type it does not have at the moment (main <-> backup)
@@ -556,6 +559,12 @@ func (w *tcpWorld) inject(f *TCPFault) bool {
 			return false
 		}
 		hs := w.hostsOf(f, f.Node)
+		switch f.Extra {
+		case "dup":
+			hs = append(hs, w.hostsOf(f, f.Node)...)
+		case "unknown":
+			hs = append(hs, host.New("10.1.9.9:80"))
+		}
 		was := w.members[f.Node]
 		delete(w.members, f.Node)
 		w.snapshotMembers()
